@@ -16,14 +16,14 @@ LEVEL = 'exploration'
 ENGINE = 'history'
 BUDGET = {'quick': 8000, 'thorough': 100000}
 WALL = {'quick': 45, 'thorough': 1500}
-RULE = ('(in 35 % of the worlds the volume mounted at / has a .Trash of its own, in any of the states) one command per case (put, list, restore with every index, empty with/without DAYS and --dry-run, rm *) on a world where each '
+RULE = ('(in 15 % of the worlds some listed volumes are same-file-system bind mounts that os.path.ismount() denies - reader commands only; in 35 % of the worlds the volume mounted at / has a .Trash of its own, in any of the states) one command per case (put, list, restore with every index, empty with/without DAYS and --dry-run, rm *) on a world where each '
         'volume has a generated .Trash state (sticky dir, non-sticky dir, symlink to sticky / non-sticky dir, regular file, dangling, '
         'absent) with a populated .Trash/$uid where the state allows, plus populated .Trash-$uid and home trash; non-trivial = some '
         'volume has an insecure .Trash with a populated $uid directory; in 12 % of the worlds with a sticky .Trash a multi-argument trash-put during '
         'which .Trash stops being secure between two arguments (an environment event at a prompt of -i: chmod, replaced by a symlink, removed; or '
         '.Trash itself given as an argument); distinct = (command, sorted .Trash states)')
 ASSUMPTIONS = []
-PROBES = ['root-volume-dot-Trash', 'insecure-populated', 'secure-used-by-list', 'secure-used-by-put', 'secure-used-by-restore', 'secure-purged', 'put-fell-through-to-alt',
+PROBES = ['root-volume-dot-Trash', 'listed-volume-is-a-bind-mount', 'insecure-populated', 'secure-used-by-list', 'secure-used-by-put', 'secure-used-by-restore', 'secure-purged', 'put-fell-through-to-alt',
           'list-reported-skip', 'cmd-trash-put', 'cmd-trash-list', 'cmd-trash-restore', 'cmd-trash-empty', 'cmd-trash-rm',
           'dot-Trash-becomes-insecure-between-arguments', 'later-argument-trashed']
 TECHNIQUE = 'deterministic simulation of all five commands over the lattice of .Trash states; frame oracle on $topdir/.Trash/$uid plus output checks'
@@ -107,6 +107,12 @@ def gen(rng):
             'dirsalt': rng.randrange(1 << 30),
             'midrun': {'how': how, 'volume': v, 'before_prompt': rng.choice([2, 2, 3])},
         }
+    binds = []
+    if L['vols'] and rng.random() < 0.15:
+        # some of the listed volumes are bind mounts of a directory of the enclosing file system (mount --bind, container volumes,
+        # systemd BindPaths=): in the partition listing, yet os.path.ismount() denies them.  The readers visit them all the same.
+        binds = [v for v in L['vols'] if rng.random() < 0.7] or [L['vols'][0]]
+        cmd = rng.choice(['trash-list', 'trash-restore', 'trash-restore', 'trash-empty', 'trash-rm'])
     if cmd == 'trash-put':
         argv = [cmd] + rng.choice([[], ['-v']]) + [rng.choice([L['work'][v_] + '/victim' for v_ in L['vols']] + ([rootvictim] * 2 if rootvictim else []))]
     elif cmd == 'trash-list':
@@ -119,7 +125,7 @@ def gen(rng):
     else:
         argv = [cmd, rng.choice(['*', 'shared*', '/*'])]
     return {
-        'world': {'mounts': L['mounts'], 'steps': steps},
+        'world': dict({'mounts': L['mounts'], 'steps': steps}, **({'binds': binds} if binds else {})),
         'procs': [{'argv': argv, 'env': L['env'], 'cwd': '/', 'uid': uid, 'stdin': stdin}],
         'dirsalt': rng.randrange(1 << 30),
     }
@@ -241,6 +247,8 @@ def check(sim, case, st):
     states = tuple(sorted(MB.top_state(snap0, m) for m in mounts if m != '/'))
     if '/.Trash' in snap0:
         st.probes['root-volume-dot-Trash'] += 1
+    if case['world'].get('binds'):
+        st.probes['listed-volume-is-a-bind-mount'] += 1
     if insecure:
         st.probes['insecure-populated'] += 1
         st.distinct.add((cmd, tuple(a for a in argv[1:] if a.startswith('-') or a.isdigit()), tuple(sorted(s for _m, s, _r, _t in insecure))))
